@@ -351,7 +351,12 @@ func (fr *Frame) assumeWellFormed(v Val, st *State, reach *Term) {
 
 func (fr *Frame) ghostStmts(key string, ordinal int, when string, st *State, reach *Term) {
 	vc := fr.vc
-	if fr.depth > 0 || vc.fc == nil {
+	if vc.fc == nil || len(vc.fc.Ghost) == 0 {
+		return
+	}
+	// a call inside an inlined helper (depth > 0) is an anchor too: the ordinal then counts within the helper, the statement's
+	// expression is evaluated in the scope of the function under contract (vc.root) plus arg0.. / result of this call
+	if fr.depth > 0 && vc.root == nil {
 		return
 	}
 	short := vc.e.shortName(key)
@@ -390,7 +395,7 @@ func (fr *Frame) ghostStmts(key string, ordinal int, when string, st *State, rea
 			fr.ghostAssign(gs, st)
 		}
 	}
-	if cut && fr.depth == 0 {
+	if cut {
 		// forget: obligations of the code dominated by this point see the requires, the declarations and the facts just proved
 		rec := &cutRec{block: vc.curBlock, from: vc.entryLen, to: len(vc.cmds), facts: map[int]string{}, keep: map[string]bool{}, soft: soft}
 		for _, l := range keep {
@@ -410,6 +415,12 @@ func (fr *Frame) ghostStmts(key string, ordinal int, when string, st *State, rea
 // ghostAssert: an intermediate assertion of the contract, proved where it stands and then assumed.
 func (fr *Frame) ghostAssert(gs *GhostStmt, st *State, reach *Term, assumeNow bool) *Term {
 	vc := fr.vc
+	if fr.depth > 0 && vc.root != nil {
+		root := vc.root
+		root.ghostResults, root.ghostArgs = fr.ghostResults, fr.ghostArgs
+		defer func() { root.ghostResults, root.ghostArgs = nil, nil }()
+		fr = root
+	}
 	sc := fr.baseScope(st)
 	if len(fr.ghostResults) == 1 {
 		sc.vars["result"] = fr.ghostResults[0]
@@ -434,6 +445,12 @@ func (fr *Frame) ghostAssert(gs *GhostStmt, st *State, reach *Term, assumeNow bo
 
 func (fr *Frame) ghostAssign(gs *GhostStmt, st *State) {
 	vc := fr.vc
+	if fr.depth > 0 && vc.root != nil {
+		root := vc.root
+		root.ghostResults, root.ghostArgs = fr.ghostResults, fr.ghostArgs
+		defer func() { root.ghostResults, root.ghostArgs = nil, nil }()
+		fr = root
+	}
 	gd := vc.e.Ghosts[gs.Var]
 	if gd == nil {
 		vc.Errors = append(vc.Errors, "unknown ghost variable "+gs.Var)
